@@ -78,8 +78,6 @@ def worker_env(extra: dict | None = None) -> dict:
     # LD_LIBRARY_PATH for the Python child only; the private dir holds libicu* only.
     env["LD_LIBRARY_PATH"] = icu or ""
     pp = [repo_path(), VERIF, DEPS]
-    if icu is None:
-        pp.insert(0, os.path.join(VERIF, "vf", "stubs"))
     env["PYTHONPATH"] = ":".join(pp)
     env["PYTHONHASHSEED"] = "0"
     env["PYTHONDONTWRITEBYTECODE"] = "1"
